@@ -46,7 +46,13 @@ let take_attrs toks_ =
   | n :: rest ->
     let rec go k r acc = if k = 0 then (List.rev acc, r) else
         match r with
-        | h :: nm :: eid :: r' -> go (k - 1) r' ({ ra_h = cn h; ra_name = cs nm; ra_eid = cs eid } :: acc)
+        | h :: nm :: eid :: nv :: r' ->
+          let rec vals j r acc = if j = 0 then (List.rev acc, r) else
+              match r with
+              | i :: v :: r2 -> vals (j - 1) r2 ((cz i, cs v) :: acc)
+              | _ -> failwith "attr values" in
+          let vs, r2 = vals (int_of_string nv) r' [] in
+          go (k - 1) r2 ({ ra_h = cn h; ra_name = cs nm; ra_eid = cs eid; ra_vals = vs } :: acc)
         | _ -> failwith "attrs" in
     go (int_of_string n) rest []
   | [] -> failwith "attr count"
@@ -129,7 +135,12 @@ let parse_case st : rnet =
     match peek st with
     | Some l when (match toks l with "bus" :: _ -> true | _ -> false) ->
       (match toks (pop st) with
-       | "bus" :: h :: n :: d :: baud :: bh :: bn :: rest ->
+       | "bus" :: h :: n :: d :: baud :: bh :: bn :: nops :: rest ->
+         let rec ops k r acc = if k = 0 then (List.rev acc, r) else
+             match r with
+             | a :: b :: c :: r2 -> ops (k - 1) r2 (((cz a, cz b), cz c) :: acc)
+             | _ -> failwith "ops" in
+         let opl, rest = ops (int_of_string nops) rest [] in
          let at, _ = take_attrs rest in
          Hashtbl.replace owner_key h "B";
          let rec nifs () =
@@ -166,7 +177,7 @@ let parse_case st : rnet =
            | ["endbus"] -> []
            | _ -> failwith "nif/endbus expected" in
          let nl = nifs () in
-         { rb_h = cn h; rb_attrs = at; rb_builder = (if bh = "-1" then None else Some (cn bh, cs bn));
+         { rb_h = cn h; rb_attrs = at; rb_builder = (if bh = "-1" then None else Some { bl_h = cn bh; bl_name = cs bn; bl_ops = opl });
            rb_name = cs n; rb_desc = cs d; rb_baud = cz baud; rb_nifs = nl } :: buses ()
        | _ -> failwith "bus line")
     | _ -> [] in
@@ -193,6 +204,9 @@ let show_save = function
   | EBus h -> "B" ^ ns h | ENif h -> "N" ^ ns h | EMsg h -> "M" ^ ns h | ESig h -> "S" ^ ns h
   | EAsg a -> "A" ^ ns a.ra_h | ERecv (h, k) -> "R" ^ ns h ^ ":" ^ zs k
   | ERef (t, h) -> Printf.sprintf "F%d:%s" (int_of_nat t) (ns h) | EVal i -> "V" ^ zs i
+  | EOp (k, f, l) -> Printf.sprintf "O%s:%s:%s" (zs k) (zs f) (zs l)
+  | EPay (h, r) -> "P" ^ ns h ^ ":" ^ zs r | EFixed h -> "X" ^ ns h | EGroup -> "G"
+  | EAttrVal v -> "E" ^ hx (implode v)
   | _ -> "?"
 
 let find tbl k = try Hashtbl.find tbl k with Not_found -> "?" ^ k
@@ -207,11 +221,22 @@ let show_dbc (evs : ev list) : string =
       | ESig h -> Some ("S" ^ find sig_name_tbl (ns h))
       | ERecvN n -> Some ("r" ^ hx (implode n))
       | _ -> None) evs in
-  let defs = List.filter_map (function EDef (k, nm) -> Some (Printf.sprintf "D%d:%s" (int_of_nat k) (hx (implode nm))) | _ -> None) evs in
-  let asg = List.filter_map (function
-      | EAsgN (_, o, nm) -> Some ("a" ^ find owner_key (ns o) ^ ":" ^ hx (implode nm))
+  let defs = List.filter_map (function
+      | EDef (k, nm, vals) -> Some (Printf.sprintf "D%d:%s:%s" (int_of_nat k) (hx (implode nm))
+                                      (String.concat "" (List.map (fun v -> hx (implode v) ^ ",") vals)))
       | _ -> None) evs in
-  String.concat " " (nodes @ ["|"] @ labs @ ["|"] @ msgs @ ["|"] @ defs @ ["|"] @ asg)
+  let asg = List.filter_map (function
+      | EAsgN (_, o, a) -> Some ("a" ^ find owner_key (ns o) ^ ":" ^ hx (implode (clear_spaces a.ra_name)))
+      | _ -> None) evs in
+  let coms = List.filter_map (function EComment (_, o) -> Some ("C" ^ find owner_key (ns o)) | _ -> None) evs in
+  let encs = List.filter_map (function
+      | EValEnc (h, idx) -> Some ("V" ^ find owner_key (ns h) ^ ":" ^ String.concat "" (List.map (fun i -> zs i ^ ",") idx))
+      | _ -> None) evs in
+  let exts = List.filter_map (function
+      | EExt (muxor, muxed, rs) -> Some ("X" ^ hx (implode muxor) ^ "." ^ hx (implode muxed) ^ ":"
+                                        ^ String.concat "," (List.map (fun (f, t) -> zs f ^ "-" ^ zs t) rs))
+      | _ -> None) evs in
+  String.concat " " (nodes @ ["|"] @ labs @ ["|"] @ msgs @ ["|"] @ defs @ ["|"] @ asg @ ["|"] @ coms @ ["|"] @ encs @ ["|"] @ exts)
 
 let readable line =
   String.concat " " (List.map (fun t -> if String.length t > 0 && t.[0] = 'x' && String.length t mod 2 = 1
